@@ -56,6 +56,15 @@ static void t_move_assign(T* dst, T* src) {
 #define XV_CLOSURE_1() 0
 #define XV_CALL_SUCCESS(d) nbq_try_pop_success(successFunc, &(d))
 #define XV_CALL_EMPTY() nbq_try_pop_empty()
+/* ---- pop(): std::optional<value_type> = {present, value}; std::optional<T>(std::move(v)) move-constructs the value from v ---- */
+struct xv_opt { _Bool present; T val; };
+#define XV_NULLOPT ((struct xv_opt){0})
+unsigned g_opt_moves;
+static struct xv_opt xv_opt_from_moved(T* s) {
+  XV_OBL("nbq.own.exactly_once", s->alive && !s->moved);                    /* an element is moved out at most once */
+  struct xv_opt o; o.present = 1; o.val = (T){ .v = s->v, .alive = 1, .moved = 0, }; s->moved = 1; g_opt_moves++; return o;
+}
+#define XV_OPT_FROM_MOVED(x) xv_opt_from_moved(&(x))
 #include "lowered.h"
 
 /* ---------------------------------------------------------------- constructor: every requested capacity 1 .. 2^32 */
@@ -176,3 +185,20 @@ void h_dtor(void) {
   if (in_na > 0 && in_na < CAP) XV_CANARY("dtor.some");
 #endif
 }
+
+/* pop(): the functors it passes to do_pop (extracted text) against the ones of try_pop; XV_POP_OPTIONAL_TARGET is the callee named in pop()'s body */
+#define do_pop 7701
+void h_pop_optional(void) {
+  T c1; c1.v = nondet_u32(); c1.alive = 1; c1.moved = 0; 
+  T c2 = c1, res = c1; res.v = nondet_u32();
+  g_opt_moves = 0;
+  XV_OBL("nbq.pop_optional.same_as_try_pop", XV_POP_OPTIONAL_TARGET == 7701);
+  struct xv_opt a = nbq_pop_success(&c1);
+  _Bool ok = nbq_try_pop_success(&res, &c2);
+  XV_OBL("nbq.pop_optional.same_as_try_pop", ok && a.present && a.val.v == res.v && a.val.v == c2.v && a.val.alive && !a.val.moved && g_opt_moves == 1);
+  XV_OBL("nbq.pop_optional.same_as_try_pop", c1.moved && c1.alive && c2.moved && c2.alive && c1.v == c2.v);      /* moved-from, not destroyed: do_pop runs ~T() on the cell afterwards */
+  struct xv_opt e = nbq_pop_empty();
+  XV_OBL("nbq.pop_optional.same_as_try_pop", !e.present && !nbq_try_pop_empty());
+  XV_CANARY("pop_optional.reached");
+}
+#undef do_pop
